@@ -50,13 +50,14 @@ def split_pow2(t):
     return Fraction(1), t
 
 def contains_uf(t, _cache={}):
+    # NOTE: z3 AST ids are only unique among LIVE nodes - every id-keyed cache keeps its key term alive
     k = t.get_id()
-    if k in _cache: return _cache[k]
+    if k in _cache: return _cache[k][0]
     r = False
     if z3.is_app(t):
         if t.decl().kind() == z3.Z3_OP_UNINTERPRETED and t.num_args() > 0: r = True
         else: r = any(contains_uf(c) for c in t.children())
-    _cache[k] = r
+    _cache[k] = (r, t)
     return r
 
 # ---------------------------------------------------------------- symbolic FP domain (IEEE-UF)
@@ -118,7 +119,7 @@ class SymFP:
         return s.UF['i2d']
     def reg(s, t):
         if t.get_id() in s.seen: return False
-        s.seen.add(t.get_id()); return True
+        s.seen.add(t.get_id()); s.keep.append(t); return True
     def const(s, x):
         if x != x or x in (float('inf'), float('-inf')): return INF if x > 0 else (-INF if x < 0 else NAN)
         return RV(Fraction(x))
@@ -703,7 +704,7 @@ def run_function(E, fname, args, depth=0):
                         # truncation toward zero; out-of-range conversion is undefined in C: the result is then an unconstrained fresh value
                         iv = z3.If(v >= 0, z3.ToInt(v), -z3.ToInt(-v))
                         lim = 2**(tb - 1) if op == 'fptosi' else 2**tb
-                        memo = E.__dict__.setdefault('f2i_memo', {}); mk = (z3.simplify(v).get_id(), op, tb)
+                        memo = E.__dict__.setdefault('f2i_memo', {}); vs_ = z3.simplify(v); E.__dict__.setdefault('f2i_keep', []).append(vs_); mk = (vs_.get_id(), op, tb)
                         if mk not in memo:      # functional: the same real value converts to the same integer
                             r = z3.BitVec('f2i_%d' % len(memo), tb)
                             inr = z3.And(iv < lim, iv >= (-lim if op == 'fptosi' else 0))
